@@ -173,15 +173,61 @@ def summarize_stderr(se, rc):
     return "rc=%s %s" % (rc, se.strip().split("\n")[-1][:120] if se.strip() else "")
 
 
-def run_model(casefile, timeout=1200):
+def _run_model_one(drv, casefile, cases, timeout):
+    """one driver process over `cases` (already written to casefile); restarts after a crash of the driver"""
+    def _unlimit():
+        import resource
+        try:
+            resource.setrlimit(resource.RLIMIT_STACK, (resource.RLIM_INFINITY, resource.RLIM_INFINITY))
+        except Exception:
+            try:
+                soft, hard = resource.getrlimit(resource.RLIMIT_STACK)
+                resource.setrlimit(resource.RLIMIT_STACK, (hard, hard))
+            except Exception:
+                pass
+    out = []
+    cur = casefile
+    start = 0
+    while start < len(cases):
+        try:
+            p = subprocess.run([drv, cur], capture_output=True, text=True, timeout=timeout, preexec_fn=_unlimit)
+            lines = p.stdout.split("\n"); rc = p.returncode; err = p.stderr
+        except subprocess.TimeoutExpired as e:
+            so = e.stdout.decode() if isinstance(e.stdout, bytes) else (e.stdout or "")
+            lines = so.split("\n")[:-1] if so else []
+            if lines and not so.endswith("\n"): pass
+            rc = -1; err = "model driver timed out after %ds on one case" % timeout
+        if lines and lines[-1] == "":
+            lines.pop()
+        out += lines
+        if rc == 0 or len(lines) >= len(cases) - start:
+            break
+        out.append("MODEL-ERROR: " + err.strip()[-300:])
+        start = len(out)
+        cur = casefile + ".rest"
+        with open(cur, "w") as fh:
+            fh.write("\n".join(cases[start:]) + "\n")
+    return out[:len(cases)] + ["MODEL-ERROR: missing output"] * max(0, len(cases) - len(out))
+
+
+def run_model(casefile, timeout=1200, shard=150):
+    """Runs the extracted model over the case file: sharded over up to NPROC/2 driver processes (the extracted functions are
+    not tail-recursive - unlimited stack - and quadratic in places; a case on which the driver dies yields one MODEL-ERROR line)."""
     drv = os.path.join(ROOT, "ocaml", "driver")
-    p = subprocess.run([drv, casefile], capture_output=True, text=True, timeout=timeout)
-    lines = p.stdout.split("\n")
-    if lines and lines[-1] == "":
-        lines.pop()
-    if p.returncode != 0:
-        lines.append("MODEL-ERROR: " + p.stderr.strip()[-300:])
-    return lines
+    cases = _nonempty_lines(casefile)
+    if len(cases) <= shard:
+        return _run_model_one(drv, casefile, cases, timeout)
+    from concurrent.futures import ThreadPoolExecutor
+    chunks = [cases[k:k + shard] for k in range(0, len(cases), shard)]
+    files = []
+    for k, ch in enumerate(chunks):
+        f = "%s.m%d" % (casefile, k)
+        with open(f, "w") as fh:
+            fh.write("\n".join(ch) + "\n")
+        files.append(f)
+    with ThreadPoolExecutor(max_workers=max(2, NPROC // 2)) as ex:
+        outs = list(ex.map(lambda fc: _run_model_one(drv, fc[0], fc[1], timeout), zip(files, chunks)))
+    return [l for o in outs for l in o]
 
 
 # ----------------------------------------------------------------------------
